@@ -1,5 +1,6 @@
 import Driver.Util
 import HC.Pure.Config
+import HC.Pure.ConfigObjects
 open Lean HC HC.Config HC.Extracted
 namespace Driver.C19
 
@@ -81,8 +82,27 @@ def headersH : Handler := fun j => do
   let c : HeaderCfg := { includeDate := (← getBool j "include_date"), includeServer := (← getBool j "include_server"), altSvc := alt }
   pure (jsonOfHeaders (responseHeaders c (← getBytes j "date") (← getBytes j "protocol")))
 
+/-- a history of operations on several `Config` objects; answers the headers of every object after every operation -/
+def historyH : Handler := fun j => do
+  let alpn ← (← getArr j "alpn").toList.mapM bytesOfJson
+  let date ← getBytes j "date"
+  let protocol ← getBytes j "protocol"
+  let ops ← (← getArr j "ops").toList.mapM (fun o => do
+    match (← getStr o "op") with
+    | "new" => pure Op.new
+    | "set_date" => pure (Op.setDate (← getNat o "obj") (← getBool o "value"))
+    | "set_server" => pure (Op.setServer (← getNat o "obj") (← getBool o "value"))
+    | "set_alt_svc" => pure (Op.setAltSvc (← getNat o "obj") (← (← getArr o "value").toList.mapM bytesOfJson))
+    | "set_ssl" => pure (Op.setSsl (← getNat o "obj") (← getBool o "value"))
+    | "create_sockets" => pure (Op.createSockets (← getNat o "obj") (← (← getArr o "quic").toList.mapM (fun p => p.getNat?)))
+    | other => throw s!"unknown operation {other}")
+  let (_, out) := ops.foldl (fun (acc : World × List Json) op =>
+    let w := step acc.1 op
+    (w, acc.2 ++ [Json.arr (w.objs.map (fun o => jsonOfHeaders (objHeaders w o alpn date protocol))).toArray])) (World.init, [])
+  pure (Json.arr out.toArray)
+
 def handlers : List (String × Handler) :=
   [("c19.cli", cli), ("c19.args", argsH), ("c19.wires", wiresH), ("c19.from_mapping", fromMappingH), ("c19.from_object", fromObjectH), ("c19.bind", bindH), ("c19.binds", bindsH),
-   ("c19.date", dateH), ("c19.headers", headersH)]
+   ("c19.date", dateH), ("c19.headers", headersH), ("c19.history", historyH)]
 
 end Driver.C19
